@@ -886,8 +886,9 @@ def lean_lines(case, calls, out, forced_seed=1):
             for l, u in cb:
                 bl += [l, u]
             line = f"axis {lt} {f2b(eps)} {ncell} {M.shape[0]} {bits(bl)} {bits(o)} {bits(M.ravel())}"
-            res.append((line, {"kind": "trace", "calls": calls,
-                               "release": None if case.get("arr_dtype") else list(np.asarray(out, dtype=float).ravel()),
+            # `_wrap_axis` stores the releases in an array of the caller's `dtype` (float when none was given)
+            res.append((line, {"kind": "trace", "calls": calls, "release": list(np.asarray(out, dtype=float).ravel()),
+                               "cast": np.float32 if dt == "float32" else None,
                                "tol_in": tol_in, "scale": [scale_of(tool, l, u, M.shape[0]) for l, u in cb]}))
         return res
     if fam == "hist":
@@ -930,8 +931,7 @@ def lean_lines(case, calls, out, forced_seed=1):
             l, u = cb[c]
             call = calls[k]
             line = f"quantile {bits([e_c, l, u, 1e-5, qv])} {int(call.forced)} {f2b(case.get('uni', 0.5))} {bits(M[:, c] if mode == 'axis' else M[:, 0])}"
-            res.append((line, {"kind": "quant", "call": call, "eps": e_c,
-                               "release": None if (case.get("arr_dtype") and mode == "axis") else float(rel[k])}))
+            res.append((line, {"kind": "quant", "call": call, "eps": e_c, "release": float(rel[k])}))
             k += 1
     return res
 
@@ -988,8 +988,8 @@ def compare_answer(ctx, case, line, expect, ans):
         assert w[pos] == "R"
         rel = [b2f(int(x)) for x in w[pos + 1:]]
         impl_rel = expect["release"]
-        if impl_rel is None:      # integer-typed input: `dummy` is an integer array and casts the releases
-            return True
+        if expect.get("cast") is not None:
+            rel = [float(expect["cast"](x)) for x in rel]
         if len(rel) != len(impl_rel) or any(not close(a, b, 1e-12) for a, b in zip(rel, impl_rel)):
             ctx.disagree("tools.release", {"case": brief(case)}, rel[:6], impl_rel[:6])
             return False
